@@ -41,7 +41,7 @@ func init() {
 		Assumptions: commonAssumptions})
 	describe(&PropertyDoc{ID: "C04",
 		Explanation: "Structural necessary conditions of the URL-record invariants in every reachable state.",
-		Decides:     []string{"default-port elision follows every store of a new port and every scheme change under an override (PAIR-port)", "the 'cannot have credentials/port' and opaque-path guards are shared by sibling setters (PAIR-guards)", "component sets and forbidden sets are at least the standard's (TAB-super, TAB-forbidden ⊇), default ports are the standard's (TAB-schemes)", "the package-level default scheme table is read only by the options initialiser: default-port elision uses the parser's own table (OPT-schemetable)", "the default-port elision decides on the port itself, or on the cached number only while every writer keeps it in step (PAIR-port decides-on); derived state follows its sources (PAIR-cache)"},
+		Decides:     []string{"default-port elision follows every store of a new port and every scheme change under an override (PAIR-port)", "the 'cannot have credentials/port' and opaque-path guards are shared by sibling setters (PAIR-guards)", "component sets and forbidden sets are at least the standard's (TAB-super, TAB-forbidden ⊇), default ports are the standard's (TAB-schemes)", "the package-level default scheme table is read only by the options initialiser: default-port elision uses the parser's own table (OPT-schemetable)", "the default-port elision decides on the port itself, or on the cached number only while every writer keeps it in step (PAIR-port decides-on); derived state follows its sources (PAIR-cache)", "the serializer only ever appends: no assembled text is trimmed, replaced or re-sliced (FLOW-serialappend)"},
 		NotDecided:  []string{"getter-composition identities", "value-level invariants (scheme grammar, ASCII-only serialisation)"},
 		Assumptions: commonAssumptions})
 	describe(&PropertyDoc{ID: "C05",
@@ -51,12 +51,12 @@ func init() {
 		Assumptions: append([]string{"/verif/spec/setters.json transcribes the API setters of the standard"}, commonAssumptions...)})
 	describe(&PropertyDoc{ID: "C06",
 		Explanation: "Structural facts behind the resolution laws.",
-		Decides:     []string{"the three resolution routes pass identical arguments into one algorithm, on the receiver's own parser (FLOW-funnel)", "'#f' against an opaque base inherits exactly scheme, path, query and is the only accepted relative form; '?q', '#f', empty inherit exactly the listed components; a scheme-less reference always takes the base's scheme (SM-inherit / SM-failpoints rows)", "the next-state relation of the no-scheme, relative, relative-slash and special-relative-or-authority states per class of code point, incl. failure for anything but '#' against an opaque base (SM-transitions)", "every URL a resolution route hands out is the result of the one algorithm: no path bypasses it (FLOW-funnel, must-pass-through)", "Clone, from which resolution against a URL value starts, fills every field of the copy from the same field of the original and hands the copy to no function that rewrites it (EFF-clonefaithful)"},
+		Decides:     []string{"the three resolution routes pass identical arguments into one algorithm, on the receiver's own parser (FLOW-funnel)", "'#f' against an opaque base inherits exactly scheme, path, query and is the only accepted relative form; '?q', '#f', empty inherit exactly the listed components; a scheme-less reference always takes the base's scheme (SM-inherit / SM-failpoints rows)", "the next-state relation of the no-scheme, relative, relative-slash and special-relative-or-authority states per class of code point, incl. failure for anything but '#' against an opaque base (SM-transitions)", "every URL a resolution route hands out is the result of the one algorithm: no path bypasses it (FLOW-funnel, must-pass-through)", "Clone, from which resolution against a URL value starts, fills every field of the copy from the same field of the original and hands the copy to no function that rewrites it (EFF-clonefaithful)", "no object tied to the copy is handed to a function that rewrites the copy through it (EFF-clonefaithful)"},
 		NotDecided:  []string{"that the serialization of u resolves to u (C03 plus value behaviour)"},
 		Assumptions: commonAssumptions})
 	describe(&PropertyDoc{ID: "C07",
 		Explanation: "Structural facts of IPv4 host recognition.",
-		Decides:     []string{"no sign-accepting strconv conversion sees text that was not validated against the digit set of its radix (FLOW-strconv)", "the IPv4 parser runs only for special hosts that end in a number (FLOW-ipv4)", "the radix and stripped prefix that reach the conversion equal the standard's table on every realisable valuation of the prefix/length tests (TAB-ipv4prefix)", "no integer conversion of a parsed number loses a value the parse can return (FLOW-width)", "rejection points are the standard's (SM-failpoints rows)", "more than four parts and a non-last part above 255 are exactly the counter values rejected (TAB-thresholds)", "digit tables are exact (TAB-ascii)", "the last part is rejected from 256^(5-n) on for n = 1..4 parts, and part i of the others is weighed by 256^(3-i): the expressions are folded on the SSA form per value of n and i (TAB-ipv4limit)"},
+		Decides:     []string{"no sign-accepting strconv conversion sees text that was not validated against the digit set of its radix (FLOW-strconv)", "the IPv4 parser runs only for special hosts that end in a number (FLOW-ipv4)", "the radix and stripped prefix that reach the conversion equal the standard's table on every realisable valuation of the prefix/length tests (TAB-ipv4prefix)", "no integer conversion of a parsed number loses a value the parse can return (FLOW-width)", "rejection points are the standard's (SM-failpoints rows)", "more than four parts and a non-last part above 255 are exactly the counter values rejected (TAB-thresholds)", "digit tables are exact (TAB-ascii)", "the last part is rejected from 256^(5-n) on for n = 1..4 parts, and part i of the others is weighed by 256^(3-i): the expressions are folded on the SSA form per value of n and i (TAB-ipv4limit)", "a hand-written multiply-and-add accumulator with constant or variable radix is bounded inside its loop (FLOW-accum)"},
 		NotDecided:  []string{"the serialisation of the 32-bit value; an assembly of the value in a form other than weight times part (Horner form)", "the ends-in-a-number decision beyond its call structure"},
 		Assumptions: commonAssumptions})
 	describe(&PropertyDoc{ID: "C08",
